@@ -49,7 +49,7 @@ def hx(s):
 def chal(rng, kind=None, alg=None, qop=None, realm=None, nonce=None):
     return ",".join([kind or rng.choice("WP"), alg or rng.choice(ALGS), qop or rng.choice(QOPS), rng.choice("01"),
                      hx(realm if realm is not None else rng.choice(STR)), hx(nonce if nonce is not None else rng.choice(NONCES)),
-                     rng.choice(["-", hx("5ccc069c403ebaf9f0171e9517f40e41")])])
+                     rng.choice(["-", hx("5ccc069c403ebaf9f0171e9517f40e41")]), rng.choice("0001")])
 
 
 def gen_cases(rng, tier):
@@ -311,6 +311,14 @@ def oracle(case, impl):
             # "only the first supported challenge per realm is answered": the challenges of one response, WWW-Authenticate before
             # Proxy-Authenticate (the two header kinds are separate entries of the header map), grouped by realm
             chs = [ch.split(",") for ch in st[1:].split("|")]
+            # "a repeated challenge with an unchanged nonce is reported as failed authentication instead of being answered again"
+            # (whatever its stale flag says): a response all of whose challenges for some realm carry the nonce already answered
+            for realm_h in set(c[4] for c in chs):
+                realm_s = bytes.fromhex(realm_h).decode("utf-8")
+                mine = [c for c in chs if c[4] == realm_h]
+                if realm_s in answered and all(bytes.fromhex(c[5]).decode("utf-8", "replace") == answered[realm_s] for c in mine) and o == "A[ok]":
+                    return ["the challenge for realm %r repeats the nonce %r that was already answered (stale=%s) and was answered again instead of being reported as failed" % (
+                        realm_s, answered[realm_s], "/".join(c[7] if len(c) > 7 else "0" for c in mine))]
             chs = [c for c in chs if c[0] == "W"] + [c for c in chs if c[0] != "W"]
             seen_realms = []
             for c in chs:
